@@ -79,6 +79,8 @@ class CallModels:
             if full in ('io.BytesIO', 'struct.pack', 'struct.unpack', 'struct.calcsize', 'itertools.count', 'itertools.cycle',
                         'binascii.hexlify', 'binascii.unhexlify', 're.compile', 'struct.Struct', 'io.StringIO'):
                 return [(st, VFunc(full, model=('builtin', full)))]
+            if b.name == 'operator':
+                return [(st, VFunc(full, model=('builtin', full)))]
             if full == 'struct.error':
                 return [(st, VClass('StructError'))]
             if full in ('io.SEEK_SET', 'io.SEEK_CUR', 'io.SEEK_END'):
